@@ -3911,7 +3911,9 @@ class FuncSub(ValueFunc):
         if a.isDate():
             if b.isDate():
                 diff = to_oa_date(a.value) - to_oa_date(b.value)
-                return ValueInt(diff)
+                if diff == math.trunc(diff):
+                    return ValueInt(math.trunc(diff))
+                return ValueDecimal(diff)
             return ValueDate(
                 to_date(to_oa_date(a.value) - args.getAsDecimal("b").value)
             )
